@@ -101,34 +101,39 @@ def s_parse_size(vc):
     if vc.mode == "sym":
         import z3
         from pyvc import lib
-        vc.assume(SBool(z3.InRe(s.t, z3.Star(z3.Union(*[z3.Re(c) for c in ALNUM])))))
+        vc.assume(SBool(z3.InRe(s.t, z3.Star(z3.Union(z3.Range("0", "9"), z3.Range("a", "z"), z3.Range("A", "Z"), z3.Re(","), z3.Re("."), z3.Re("/"), z3.Re(":"))))))
         np = lib.uf("int_parsable_nondigit", z3.StringSort(), z3.BoolSort())
         vc.assume(SBool(z3.Not(np(s.t))))
         vc.assume(SBool(z3.Not(np(s[0:len_(s) - 1].t))))
         vc.assume(SBool(z3.Not(np(s[:-1].t))))
     else:
         vc.assume(all(c in ALNUM for c in s))
+    n = len_(s)
+    head, last = s[:-1], s[n - 1:n]
+    shape = vc.case("shape", ["digits"] + ["unit:" + u for u in UNITS] + ["other"])
+    unit_shape = {u: And(n >= 2, last == u, _digits(vc, head)) for u in UNITS}
+    if shape == "digits":
+        vc.assume(_digits(vc, s))
+    elif shape.startswith("unit:"):
+        vc.assume(unit_shape[shape[5:]])
+        vc.assume(Not(_digits(vc, s)))          # (implied: the last character is a letter; stated to keep path exploration cheap)
+    else:
+        vc.assume(And(Not(_digits(vc, s)), *[Not(c) for c in unit_shape.values()]))
     out = vc.call(PS, s)
     vc.ensure("total.only_value_error", out.ok or issubclass(out.raised_type(), ValueError))
-    if vc.branch(_digits(vc, s)):
+    if shape == "digits":
         vc.ensure("decimal.accepted", out.ok)
         if out.ok:
             vc.ensure("decimal.value", out.result == _to_int(vc, s))
         return
-    n = len_(s)
-    head, last = s[0:n - 1], s[n - 1:n]
-    for u, mult in UNITS.items():
-        if vc.branch(And(n >= 2, last == u, _digits(vc, head))):
-            vc.ensure(f"unit.{u}.accepted", out.ok)
-            if out.ok:
-                vc.ensure(f"unit.{u}.value", out.result == _to_int(vc, head) * mult)
-            return
-    # everything int() does not accept, with or without a unit suffix, is rejected
-    has_unit = Or(*[last == u for u in UNITS])
-    vc.ensure("reject.otherwise", Implies(And(Not(_int_ok(vc, s)), Or(n == 0, Not(has_unit), Not(_int_ok(vc, head)))), Not(out.ok)))
-    # ... and a result is only ever produced from int(s) or int(s[:-1]) * unit
-    if out.ok:
-        vc.ensure("accept.only_if_parsable", Or(_int_ok(vc, s), And(n >= 1, has_unit, _int_ok(vc, head))))
+    if shape.startswith("unit:"):
+        u = shape[5:]
+        vc.ensure(f"unit.{u}.accepted", out.ok)
+        if out.ok:
+            vc.ensure(f"unit.{u}.value", out.result == _to_int(vc, head) * UNITS[u])
+        return
+    # everything else is rejected (over this alphabet int() accepts digit strings only)
+    vc.ensure("reject.otherwise", Not(out.ok))
 
 
 # ---------------------------------------------------------------------------------------------
@@ -160,9 +165,10 @@ def setup_limits(vc, limit_set, thresh_set):
     return limit, thresh, L, S
 
 
-def setup_expected(vc):
-    """expected_http_body_size summarised: None | int | raises ValueError, an arbitrary function of the heads"""
-    kind = vc.case("expected", ["int", "none", "invalid"])
+def setup_expected(vc, split=True):
+    """expected_http_body_size summarised: None | int | raises ValueError, an arbitrary function of the heads
+    (split=False: the head is not consulted on these paths - obligation late.head_not_consulted - so one case suffices)"""
+    kind = vc.case("expected", ["int", "none", "invalid"]) if split else "int"
     E = vc.sym_int("E")
     calls = []
 
@@ -219,7 +225,7 @@ def s_check_body_size(vc):
     limit_set = vc.case("limit_set", [True, False])
     thresh_set = vc.case("thresh_set", [True, False])
     limit, thresh, L, S = setup_limits(vc, limit_set, thresh_set)
-    kind, E, calls = setup_expected(vc)
+    kind, E, calls = setup_expected(vc, split=not late)
     store = vc.sym_bool("store_streamed_bodies")
     buf = vc.sym_bytes("buf") if late else None
     if late:
@@ -333,8 +339,8 @@ def s_consume_data(vc):
     limit_set = vc.case("limit_set", [True, False])
     thresh_set = vc.case("thresh_set", [True, False])
     limit, thresh, L, S = setup_limits(vc, limit_set, thresh_set)
-    kind, E, calls = setup_expected(vc)
     empty = vc.case("buffer_empty", [False, True])
+    kind, E, calls = setup_expected(vc, split=empty)
     buf = None if empty else vc.sym_bytes("buf")
     data = vc.sym_bytes("data")
     old = b"" if empty else buf
